@@ -1,8 +1,11 @@
-/- Driver for C09 (stub). -/
-import ControlModel.Basic
+/- Driver for C09 (monitor + Spec.C09 on the observed trace). -/
+import Driver.EnvCommon
+import ControlModel.Spec.C09
 
 namespace Driver.C09
+open EnvM Driver.EnvCommon
 
-def processLine (_line : String) : String := "UNIMPLEMENTED\t0\t-"
+def processLine (line : String) : String :=
+  processWith (fun i tr => (specC09 i.hooks i.reqs tr, "-")) line
 
 end Driver.C09
